@@ -122,7 +122,7 @@ func (g *Gen) havocCall(key string, resT types.Type, pos token.Pos) *Val {
 	n := g.freshConst("nextobj_h", "Int")
 	g.assumeRaw(fmt.Sprintf("(>= %s %s)", n, g.nextobj))
 	g.nextobj = n
-	for k := range g.ghost {
+	for _, k := range sortedKeys(g.ghost) {
 		g.ghost[k] = g.freshConst("gh_"+k, g.ghostSortOf(k))
 	}
 	v := g.havocVal(resT, "r_"+sanitize(key))
